@@ -150,6 +150,14 @@ impl SemanticState {
             if self.type_registry.get(&new_path).is_some() {
                 anyhow::bail!("duplicate definition of `{new_path}`");
             }
+            if let grammar::ItemDefinitionInner::Type(td) = &definition.inner {
+                if td.statements.iter().any(|s| s.field.is_vftable()) {
+                    // the vftable struct generated for this type, see `vftable::build`
+                    self.type_registry.announce(
+                        path.join(format!("{}Vftable", definition.name.as_str()).into()),
+                    );
+                }
+            }
             self.add_item(ItemDefinition {
                 visibility: definition.visibility.into(),
                 path: new_path,
